@@ -377,6 +377,12 @@ def common(case, ctx):
     return md, q
 
 
+def oid(md, base):
+    """oracle id; the class covered by the known findings C19-F1/F2 gets its own id so that its residuals do not
+    pollute the residual statistics of the classes that hold."""
+    return base + (":qmpt_constrained" if (md.ttype == "qmpt" and md.flag) else "")
+
+
 def lin_tol(md, ref, tnorm2=1.0):
     """algebraic x cond(A)^2, plus the footprint of quara's documented 1e-13 probability truncation."""
     pinv_f2 = float(np.sum(md.Apinv ** 2))
@@ -422,9 +428,9 @@ def check_analytic_exact(case, ctx):
     tn2 = float(np.linalg.norm(md.T, 2) ** 2)
     ref_obj = float(np.trace(md.T @ cov_lin @ md.T.T))
     ctx.close(qt.calc_mse_linear_analytical(true, ns, mode="qoperation"), ref_obj, lin_tol(md, ref_obj, tn2),
-              "mse_linear_qoperation")
+              oid(md, "mse_linear_qoperation"))
     ctx.close(qt.calc_mse_linear_analytical(true, ns), ref_obj, lin_tol(md, ref_obj, tn2),
-              "mse_linear_qoperation:default_mode")
+              oid(md, "mse_linear_qoperation:default_mode"))
 
 
 # ============================================================================= facet: end to end through LinearEstimator
@@ -477,7 +483,7 @@ def check_joint(case, ctx):
         ex_var += float(np.trace(mvj @ cov @ mvj.T))
         ex_obj += float(np.trace(msj @ cov @ msj.T))
     ctx.close(got_var, ex_var, lin_tol(md, ex_var), "mse_linear_var:probe")
-    ctx.close(got_obj, ex_obj, lin_tol(md, ex_obj, tn2), "mse_linear_qoperation:probe")
+    ctx.close(got_obj, ex_obj, lin_tol(md, ex_obj, tn2), oid(md, "mse_linear_qoperation:probe"))
 
     # ---- (b) complete joint enumeration (tiny configurations only)
     total = 1
@@ -501,7 +507,7 @@ def check_joint(case, ctx):
     e_var = float(sum(w * np.sum((v - md.v_true) ** 2) for w, v in zip(wts, vs)))
     e_obj = float(sum(w * np.sum((s - md.s_true) ** 2) for w, s in zip(wts, ss)))
     ctx.close(got_var, e_var, lin_tol(md, e_var), "mse_linear_var:joint")
-    ctx.close(got_obj, e_obj, lin_tol(md, e_obj, tn2), "mse_linear_qoperation:joint")
+    ctx.close(got_obj, e_obj, lin_tol(md, e_obj, tn2), oid(md, "mse_linear_qoperation:joint"))
     # empirical-distribution MSE through the library's own sample statistic on the complete population
     e_empi = float(sum(w * sum(np.sum((f - ps[j]) ** 2) for j, (_, f) in enumerate(e)) for w, e in zip(wts, seq)))
     ctx.close(qt.calc_mse_empi_dists_analytical(true, ns), e_empi, 1e-11 * J, "mse_empi:joint")
@@ -533,14 +539,15 @@ def check_scaling(case, ctx):
         m2 = float(qt.calc_mse_linear_analytical(true, big, mode=mode))
         ctx.close(m2 * c, m1, 1e-11 * abs(m1) + 1e-13 * float(np.sum(md.Apinv ** 2)) * tn2, f"scaling:mse_linear_{mode}")
         ref = float(np.trace(Tm @ md.Apinv @ Vc @ md.Apinv.T @ Tm.T))
-        ctx.close(m2, ref, lin_tol(md, ref, tn2) / c + 1e-300, f"mse_linear_{mode}:closed_form")
+        name = f"mse_linear_{mode}:closed_form"
+        ctx.close(m2, ref, lin_tol(md, ref, tn2) / c + 1e-300, oid(md, name) if mode == "qoperation" else name)
     if md.pmin >= 1e-4:
         N = int(case["N"])
         c1 = float(qt.calc_cramer_rao_bound(true, N, ns))
         c2 = float(qt.calc_cramer_rao_bound(true, N, big))
         c3 = float(qt.calc_cramer_rao_bound(true, N * c, big))
-        ctx.close(c2 * c, c1, 1e-7 * abs(c1), "scaling:crb")
-        ctx.close(c3, c2, 1e-7 * abs(c2), "crb_independent_of_N")
+        ctx.close(c2 * c, c1, 1e-9 * abs(c1), "scaling:crb")
+        ctx.close(c3, c2, 1e-9 * abs(c2), "crb_independent_of_N")
         ctx.label("scaling:crb-checked")
 
 
@@ -579,8 +586,8 @@ def check_fisher_crb(case, ctx):
     got = float(qt.calc_cramer_rao_bound(true, N, ns))
     got_arr = float(qt.calc_cramer_rao_bound(md.v_true.copy(), N, ns))
     tol = (1e3 * EPS * condF + 1e-9) * abs(crb_obj)
-    ctx.close(got, crb_obj, tol, "crb_value")
-    ctx.close(got_arr, crb_obj, tol, "crb_value:var_array")
+    ctx.close(got, crb_obj, tol, oid(md, "crb_value"))
+    ctx.close(got_arr, crb_obj, tol, oid(md, "crb_value:var_array"))
     # Cramer-Rao inequality (constrained flag: normalised family, unbiased linear estimator)
     if md.flag:
         V = block_diag([closed_cov(md.p[j], ns[j]) for j in range(J)])
@@ -616,7 +623,7 @@ def check_helpers(case, ctx):
         std = float(math.sqrt(sum((s - mean) ** 2 for s in ses) / (len(ses) - 1)))
         sc = 1 + max(ses)
         ctx.close(got[0], mean, 1e-12 * sc, "calc_mse_prob_dists:mean")
-        ctx.close(got[1], std, 1e-9 * sc, "calc_mse_prob_dists:std_ddof1")
+        ctx.close(got[1], std, 1e-11 * sc, "calc_mse_prob_dists:std_ddof1")
         ctx.nontrivial(len(ses) >= 3 and max(ses) > 0)
         return
     if kind == "cov":
@@ -767,7 +774,7 @@ def check_helpers(case, ctx):
         got = da.calc_mse_qoperations(xs, [qs[0]] * len(xs))
         ctx.check(isinstance(got, tuple) and len(got) == 2, "calc_mse_qoperations:returns_pair")
         ctx.close(got[0], mean, 1e-12 * (1 + mean), "calc_mse_qoperations:mean")
-        ctx.close(got[1], std, 1e-9 * (1 + mean), "calc_mse_qoperations:std_ddof1")
+        ctx.close(got[1], std, 1e-11 * (1 + mean), "calc_mse_qoperations:std_ddof1")
         got2 = da.calc_mse_qoperations(xs, [qs[0]] * len(xs), mode="qoperation", with_std=False)
         ctx.close(got2, mean, 1e-12 * (1 + mean), "calc_mse_qoperations:no_std")
         ctx.label(objs[0]["type"], f"flag:{flag}")
